@@ -38,7 +38,7 @@ def setup():
 def plan(tier, seed):
     shards = [("k1",)]
     for i in range(len(PHR)):
-        shards.append(("k2", i))
+        shards.append(("k2", i, 8 if tier == "quick" else NT))
     if tier == "thorough":
         for i in range(len(PHR)):
             for j in range(len(PHR)):
@@ -46,7 +46,7 @@ def plan(tier, seed):
                     shards.append(("k3", i, j))
     return dict(
         shards=shards,
-        bounds=dict(max_phrases=2 if tier == "quick" else 3, phrase_start="0..5", phrase_length="0..4", note_ticks="all non-empty subsets of 0..8"),
+        bounds=dict(max_phrases=2 if tier == "quick" else 3, phrase_start="0..5", phrase_length="0..4", note_ticks="all non-empty subsets of 0..8 (quick, 2-phrase layer: 0..7)"),
         budget_s=1200 if tier == "thorough" else 300,
     )
 
@@ -67,10 +67,10 @@ def body_for(phr, notes, placement):
     return out + S[i:]
 
 
-def check_list(ctx, phr, placements):
+def check_list(ctx, phr, placements, nt=NT):
     ctx.node()
-    for k in range(1, 1 << NT):
-        notes = [i for i in range(NT) if k >> i & 1]
+    for k in range(1, 1 << nt):
+        notes = [i for i in range(nt) if k >> i & 1]
         expected = [[n, next((i for i, (t, ln) in enumerate(phr) if t <= n < t + ln), None)] for n in notes]
         for pl in placements:
             body = body_for(phr, notes, pl)
@@ -97,7 +97,7 @@ def run_shard(shard, ctx):
             if p[0] <= q[0]:
                 if ctx.out_of_time():
                     return
-                check_list(ctx, (p, q), ("before",))
+                check_list(ctx, (p, q), ("before",), shard[2])
     elif kind == "k3":
         p, q = PHR[shard[1]], PHR[shard[2]]
         ctx.node(2)
